@@ -110,6 +110,32 @@ var c03Prefixes = []string{"1 ", "x' ", "x\" ", "1) ", "x') ", "1"}
 var c03Tails = []string{"", " --", " -- x", " #", "/*", "-- ", ";--", "--", "#", " /*", "--\n", "/*!1*/"}
 var c03Seps = []string{" ", "\t", "\n", "/**/", "  ", "\x0b", "\x0c", "\r", "\xa0", "\x00", "/*x*/", " /**/ ", "\t\n"}
 
+var c03ParenPrefixes = []string{"1) ", "x') ", "1)", "x')", "1)) ", "x\") "}
+
+// c03Truncations lists the comment-truncation family in the order enumC03 checks it.
+func c03Truncations() []string {
+	var out []string
+	for _, p := range []string{"1", "1 ", "x'", "x' ", "x\"", "x\" ", "1)", "1) ", "x')", "x') "} {
+		for _, t := range c03TruncAny {
+			out = append(out, p+t)
+		}
+		if p[0] == '1' {
+			for _, t := range c03TruncNumPar {
+				out = append(out, p+t)
+			}
+		}
+		if strings.Contains(p, ")") {
+			for _, t := range c03TruncNumPar {
+				out = append(out, p+t)
+			}
+			for _, t := range c03TruncPar {
+				out = append(out, p+t)
+			}
+		}
+	}
+	return out
+}
+
 // comment-truncation family: (prefix class, tail) pairs detected
 var c03TruncAny = []string{"--", "--\n", "/*", "/*!1*/", "/* x"}
 var c03TruncNumPar = []string{"-- x", " -- x"}
@@ -167,7 +193,7 @@ func enumC03(c *oracleCfg, chk func(in, what string)) {
 		}
 	}
 	for _, sk := range c03ParenSkeletons {
-		for _, pr := range []string{"1) ", "x') ", "1)", "x')", "1)) ", "x\") "} {
+		for _, pr := range c03ParenPrefixes {
 			for _, tl := range c03Tails {
 				for _, sp := range c03Seps {
 					for ci := 0; ci < 3; ci++ {
